@@ -5,6 +5,7 @@ package c01
 import (
 	"encoding/json"
 	"fmt"
+	"os"
 	"strings"
 
 	"git.sr.ht/~rockorager/vaxis"
@@ -337,6 +338,7 @@ func runSession(w *harness.W, r gen.R, replay *sessionCase) {
 		// the input loop stopped consuming during start-up: that is C03/C10
 		// territory (reply racing a query timeout); nothing to compare here
 		w.Inconclusive("startup-sync-timeout")
+		os.WriteFile(fmt.Sprintf("/tmp/c01-wedge-%d.txt", os.Getpid()), []byte(harness.AllStacks()), 0o644)
 		return
 	}
 	defer func() {
@@ -365,6 +367,8 @@ func runSession(w *harness.W, r gen.R, replay *sessionCase) {
 			sc.Frames = append(sc.Frames, f)
 		}
 		w.Begin(caseJSON(sc))
+		wedged := false
+		syncEvs := ""
 		val, stack, panicked := harness.Recover(func() {
 			for _, o := range f.Ops {
 				st.apply(o)
@@ -380,8 +384,13 @@ func runSession(w *harness.W, r gen.R, replay *sessionCase) {
 				sess.Con.SetSize(cols, rows)
 				if caps.InBand {
 					// wait until the in-band report has been processed
-					if _, ok := sess.Sync(); !ok {
+					evs, ok := sess.Sync()
+					syncEvs = fmt.Sprintf("%#v", evs)
+					if !ok {
 						w.Inconclusive("inband-resize-report-not-processed")
+						os.WriteFile(fmt.Sprintf("/tmp/c01-wedge-%d.txt", os.Getpid()), []byte(harness.AllStacks()), 0o644)
+						wedged = true
+						return
 					}
 				} else {
 					sess.Vx.Resize()
@@ -394,7 +403,11 @@ func runSession(w *harness.W, r gen.R, replay *sessionCase) {
 				win := sess.Vx.Window()
 				ww, wh := win.Size()
 				if ww != cols || wh != rows {
-					w.Violation("resize:window-size", "window size after resize differs from terminal size", sc, fmt.Sprintf("%dx%d", ww, wh), fmt.Sprintf("%dx%d", cols, rows))
+					dbg := ""
+					sess.Con.With(func() {
+						dbg = fmt.Sprintf(" mode2048=%v logcounts=%v syncevs=%s", sess.Term.Modes[2048], sess.Term.LogCounts, syncEvs)
+					})
+					w.Violation("resize:window-size", "window size after resize differs from terminal size", sc, fmt.Sprintf("%dx%d", ww, wh)+dbg, fmt.Sprintf("%dx%d", cols, rows))
 				}
 				for _, o := range f.After {
 					st.apply(o)
@@ -410,6 +423,9 @@ func runSession(w *harness.W, r gen.R, replay *sessionCase) {
 			return
 		}
 		w.End()
+		if wedged {
+			return
+		}
 		st.compare(sc, fi, f)
 		if flushViol != "" {
 			w.Violation("flush-epilogue:"+strings.SplitN(flushViol, ":", 2)[0], flushViol, sc, flushViol, "pen reset, sync balanced at every write boundary")
